@@ -204,6 +204,12 @@ mod verif_replay_sendio {
         assert_eq!(run(TIMER_CANCEL), Ok(vec!["pass".to_string()]));
         let by_expr = TIMER_CANCEL.replace(r#"<cancel sendid="a"/>"#, r#"<cancel sendidexpr="'a'"/>"#);
         assert_eq!(run(&by_expr), Ok(vec!["pass".to_string()]));
+        // the id generated for idlocation identifies the send just as well
+        let generated = TIMER_CANCEL
+            .replace(r#"<state id="s0">"#, r#"<datamodel><data id="loc"/></datamodel><state id="s0">"#)
+            .replace(r#"<send event="e.a" id="a" delay="300ms"/>"#, r#"<send event="e.a" idlocation="loc" delay="300ms"/>"#)
+            .replace(r#"<cancel sendid="a"/>"#, r#"<cancel sendidexpr="loc"/>"#);
+        assert_eq!(run(&generated), Ok(vec!["pass".to_string()]));
     }
 
     const TIMER_DISCARD: &str = r###"<scxml xmlns="http://www.w3.org/2005/07/scxml" initial="s0" version="1.0" datamodel="rfsm-expression">
@@ -224,5 +230,38 @@ mod verif_replay_sendio {
     #[test]
     fn verif_replay_sendio_terminated_session_discards_delayed() {
         assert_eq!(run(TIMER_DISCARD), Ok(vec!["pass".to_string()]));
+    }
+
+    fn delay_doc(send: &str) -> String {
+        format!(
+            r###"<scxml xmlns="http://www.w3.org/2005/07/scxml" initial="s0" version="1.0" datamodel="rfsm-expression">
+ <state id="s0">
+  <onentry>{}<raise event="after"/></onentry>
+  <transition event="after" target="pass"/>
+  <transition event="error.execution" target="pass"/>
+ </state>
+ <final id="pass"/>
+</scxml>"###,
+            send
+        )
+    }
+
+    /// C12/C16: no delay value, however large or odd, makes the session thread panic or wedge: the send is either
+    /// scheduled or reported as error.execution and the session carries on
+    #[test]
+    fn verif_replay_sendio_extreme_delays() {
+        for c in [
+            r#"<send event="late" delay="1e18ms"/>"#,
+            r#"<send event="late" delay="100000000000d"/>"#,
+            r#"<send event="late" delayexpr="'1e18ms'"/>"#,
+            r#"<send event="late" delayexpr="'9223372036854775807ms'"/>"#,
+            r#"<send event="late" delayexpr="'1e300d'"/>"#,
+            r#"<send event="late" delayexpr="'100000000d'"/>"#,
+            r#"<send event="late" delayexpr="'-5s'"/>"#,
+            r#"<send event="late" delayexpr="'abc'"/>"#,
+            r#"<send event="late" delayexpr="''"/>"#,
+        ] {
+            assert_eq!(run(&delay_doc(c)), Ok(vec!["pass".to_string()]), "content {}", c);
+        }
     }
 }
